@@ -116,6 +116,9 @@ def run_crate(crate, harnesses, tier, jobs=4):
                 r["reason"] = "; ".join(real[:4])
         else:
             r["reason"] = "no verdict (timeout / out of memory)"
+        if "run out of memory" in sec or "CBMC failed" in sec:
+            r["status"] = "undecided"
+            r["reason"] = "CBMC out of memory / crashed"
         res.append(r)
     # concrete playback for failures
     for r, h in zip(res, harnesses):
@@ -125,26 +128,31 @@ def run_crate(crate, harnesses, tier, jobs=4):
 
 
 def split_sections(out):
+    """Per-harness output blocks.  With -j, lines are `Thread N: Checking harness X...` and result
+    blocks start with a `Thread N: ` line; without -j a block follows its `Checking harness` line."""
     secs = {}
-    cur = None
-    buf = []
-    # with -j, kani prints per-harness blocks starting with "Thread N: Checking harness X..." or "Checking harness X..."
+    cur_of_thread = {}
+    active = None  # harness receiving lines
     for ln in out.split("\n"):
-        m = re.search(r"Checking harness ([\w:]+)\.\.\.", ln)
+        m = re.match(r"(?:Thread (\d+): )?Checking harness ([\w:]+)\.\.\.", ln)
         if m:
-            if cur:
-                secs[cur] = "\n".join(buf)
-            cur = m.group(1).split("::")[-1]
-            buf = []
-        elif cur:
-            buf.append(ln)
-            if ln.startswith("Complete - ") or ln.startswith("Manual Harness Summary"):
-                secs[cur] = "\n".join(buf)
-                cur = None
-                buf = []
-    if cur:
-        secs[cur] = "\n".join(buf)
-    return secs
+            h = m.group(2).split("::")[-1]
+            cur_of_thread[m.group(1)] = h
+            secs.setdefault(h, "")
+            active = h if m.group(1) is None else None
+            continue
+        m = re.match(r"Thread (\d+): ?(.*)", ln)
+        if m:
+            active = cur_of_thread.get(m.group(1))
+            if active is not None:
+                secs[active] += m.group(2) + "\n"
+            continue
+        if ln.startswith("Manual Harness Summary") or ln.startswith("Complete - "):
+            active = None
+            continue
+        if active is not None:
+            secs[active] += ln + "\n"
+    return {k: v for k, v in secs.items() if v.strip()}
 
 
 def playback(crate, d, h, env):
